@@ -397,14 +397,16 @@ func (s *Session) stopSession(data any) {
 }
 
 func (s *Session) purgeChannels() {
-	for len(s.send) > 0 {
-		<-s.send
-	}
-	for len(s.stop) > 0 {
-		<-s.stop
-	}
-	for len(s.detach) > 0 {
-		<-s.detach
+	// Do not block: the write loop may still be draining the same channels, a plain receive
+	// after a len() check would wait forever for a message which the write loop has taken.
+	for {
+		select {
+		case <-s.send:
+		case <-s.stop:
+		case <-s.detach:
+		default:
+			return
+		}
 	}
 }
 
